@@ -40,7 +40,7 @@ TEXT.update({
             "every statement about lat/lng values - orientation, 1e-12 coincidence across face projections, cellAreaRads2, the 4*pi sum - is NOT decided (trig; symbolic FP division in _v2dIntersect)."),
     "C12": ("one query per exported integer API on arbitrary 64-bit words / ints / int64 (invalid digits, modes, base cells 122-127 included), library built WITHOUT NDEBUG so every NEVER/ALWAYS/assert is a proof obligation, CBMC bounds / pointer / overflow / shift / conversion / division checks on, output buffers malloc'ed at exactly the documented size; documented domain codes asserted.",
             "digit-walking APIs are split by resolution field (0-2 quick, 0-5 and 15 thorough); k<=1; sets <= 4 words; APIs that reach trigonometry / the FP boundary code are not covered beyond their integer prefixes (C02/C03/C08/C19 jobs)."),
-    "C14": ("gridPathCellsSize == gridDistance+1 with identical error behaviour, gridPathCells writes exactly out[0..distance] in order, stops at the failing step and never writes beyond the announced size (glue, any component results, distance <= 3); a=b and every neighbour pair succeed with the path {a} / {a,b} end to end (res 0 quick, 0-3 thorough).",
+    "C14": ("gridPathCellsSize == gridDistance+1 with identical error behaviour, gridPathCells writes exactly out[0..distance] in order, stops at the failing step and never writes beyond the announced size (glue, any component results, distance <= 3); a=b and every neighbour pair succeed with the path {a} / {a,b} end to end (res 0 quick, 0-2 thorough).",
             "contiguity and end point for distance >= 2 are NOT decided: the floating-point interpolation kernel (symbolic x symbolic multiplication) gave no verdict on any back end."),
     "C16": ("the memory clauses only: call protocol of cellsToLinkedMultiPolygon (graph destroyed exactly once on every path, partial result released and error returned when normalisation fails), destroyLinkedMultiPolygon frees every block of every result shape up to 2x2x2, normalizeMultiPolygon followed by destroy leaks nothing and trips no internal assert for 2-3 loops.",
             "every geometric clause (components, orientation, closure, provenance, area) is NOT decided: needs real cell boundaries (trig) and point-in-loop tests (symbolic FP division)."),
